@@ -1,7 +1,7 @@
 ---------------------------- MODULE StopRulesDef ----------------------------
 (***************************************************************************)
-(* The three stopping rules of single-IMF extraction (emd.sift.sd_stop,    *)
-(* rilling_stop, fixed_stop) as exact decisions over integer data.         *)
+(* The stopping rules of single-IMF extraction (emd.sift.sd_stop,          *)
+(* rilling_stop, fixed_stop, energy_stop) as exact integer decisions.      *)
 (*                                                                         *)
 (*  SD      : stop iff  sum((cur-prev)^2) / sum(cur^2)  <  thresh          *)
 (*            with thresh = tp/tq:   num * tq < tp * den                   *)
@@ -12,10 +12,17 @@
 (*            stop iff  ~(n1 * tq > tp * N)  /\  n2 = 0                    *)
 (*            (a fraction EQUAL to tol stops)                              *)
 (*  fixed   : stop iff niters = max_iters                                  *)
+(*  energy  : (energy_stop, and the energy_thresh test at the end of       *)
+(*            get_next_imf) stop iff 20 log10(A) - 20 log10(B) > thresh    *)
+(*            with A / B the sums of squares of the two signals; for       *)
+(*            thresh = 20 K decibels:  A > B * 10^K.  Both sums must be    *)
+(*            positive: the code takes log10 only `where` the sum is       *)
+(*            positive and reads an uninitialised value otherwise.         *)
 (***************************************************************************)
 EXTENDS Integers
 
 SdStops(num, den, tp, tq) == num * tq < tp * den
 RillingStops(N, n1, n2, tp, tq) == ~(n1 * tq > tp * N) /\ n2 = 0
 FixedStops(niters, maxit) == niters = maxit
+EnergyStops(A, B, K) == A > B * 10 ^ K
 =============================================================================
